@@ -4,12 +4,17 @@
    (b) runs the model (Tx/Model.v) on the same input and compares — result codes 1..9.
    The external signer of the model is instantiated by the oracle row of the case: what the btcec
    library itself (called directly by the harness, not through firefly-signer) answers for the digest
-   of the message. *)
+   of the message.  Whether the signature the implementation produced is a valid signature by the
+   key over the prescribed signing hash is judged, for the cases the harness marks, by the
+   executable secp256k1 of Crypto/Secp256k1Exec.v (public-key recovery from the digest computed
+   here, address of the recovered key against the address of d*G); for the others by equality with
+   the library's deterministic signature. *)
 From Coq Require Import String.
 From Coq Require Import List NArith ZArith Lia Bool Arith.
 From Coq Require Import Init.Byte.
 From FFS Require Import Base.Res Base.Bytes Base.Lit Base.Keccak.
-From FFS Require Import Rlp.Model Rlp.Spec Rlp.Run Tx.Model Tx.Spec Tx.Norm.
+From FFS Require Import Crypto.Ecdsa Crypto.Secp256k1Exec.
+From FFS Require Import Rlp.Model Rlp.Spec Rlp.Run Tx.Model Tx.Spec Tx.Norm Tx.RecoverModel.
 Import ListNotations.
 
 (* transaction as written by the harness: byte strings in the byte-DSL *)
@@ -25,7 +30,15 @@ Definition mode_of_N (n : N) : mode :=
   match n with 0 => LegacyOriginal | 1 => LegacyEIP155 | 2 => EIP1559 | _ => Auto end%N.
 
 (* order of the secp256k1 group *)
-Definition secp_n : N := 0xFFFFFFFFFFFFFFFFFFFFFFFFFFFFFFFEBAAEDCE6AF48A03BBFD25E8CD0364141.
+Definition grp_n : N := 0xFFFFFFFFFFFFFFFFFFFFFFFFFFFFFFFEBAAEDCE6AF48A03BBFD25E8CD0364141.
+
+(* the signature (v, r, s) recovers, from digest [dig], a public key with address [addr]; that
+   [addr] is the address of key*G is checked once per key by a [CKey] case *)
+Definition exec_valid (addr : bytes) (dig : bytes) (v r s : Z) : bool :=
+  match exec_recover (be_to_z dig) r s (v =? 28)%Z with
+  | Some Q => bytes_eqb (exec_address Q) addr
+  | None => false
+  end.
 
 Definition opt_bytes_eqb (a b : option bytes) : bool :=
   match a, b with Some x, Some y => bytes_eqb x y | None, None => true | _, _ => false end.
@@ -38,6 +51,14 @@ Definition fields_match (fm : format) (a b : fields) : bool :=
   | Eip1559 => (f_maxPrio a =? f_maxPrio b)%N && (f_maxFee a =? f_maxFee b)%N
   | _ => (f_gasPrice a =? f_gasPrice b)%N
   end.
+
+Definition optZ_eqb (a b : option Z) : bool :=
+  match a, b with Some x, Some y => (x =? y)%Z | None, None => true | _, _ => false end.
+Definition tx_eqb (a b : tx) : bool :=
+  optZ_eqb (tx_nonce a) (tx_nonce b) && optZ_eqb (tx_gasPrice a) (tx_gasPrice b) &&
+  optZ_eqb (tx_maxPrio a) (tx_maxPrio b) && optZ_eqb (tx_maxFee a) (tx_maxFee b) &&
+  optZ_eqb (tx_gasLimit a) (tx_gasLimit b) && opt_bytes_eqb (tx_to a) (tx_to b) &&
+  optZ_eqb (tx_value a) (tx_value b) && opt_bytes_eqb (tx_data a) (tx_data b).
 
 (* what the harness observed when it handed the implementation's output to
    ethsigner.RecoverRawTransaction with the same chain id *)
@@ -58,6 +79,7 @@ Inductive signer_kind :=
 Inductive case :=
 | CSign
     (mode : N) (t : dtx) (chain : Z) (kind : signer_kind)
+    (key : Z) (judge : bool)   (* the private scalar; judge the signature with Secp256k1Exec? *)
     (* oracle row, filled from the libraries directly: Keccak-256 (x/crypto) of the message the signer
        was asked to sign, btcec SignCompact(key, digest) as (V, R, S), address of the key *)
     (odig : bdsl) (ov or_ os : Z) (kaddr : bdsl)
@@ -68,7 +90,9 @@ Inductive case :=
     (* second run gives the same bytes; caller's struct deep-equal before/after;
        SignaturePayload + Sign + Finalize...WithSignature by hand gives the same bytes *)
     (same2 unmodified finalize_same : bool)
-    (r : recov).
+    (r : recov)
+(* the address the libraries give for a private key is the address of key*G (Secp256k1Exec) *)
+| CKey (key : Z) (kaddr : bdsl).
 
 (* recovery id of a 27/28 V *)
 Definition y_of_Z (v : Z) : N := Z.to_N (v - 27).
@@ -77,28 +101,31 @@ Definition Zin (lo hi : N) (z : Z) : bool := (Z.of_N lo <=? z)%Z && (z <=? Z.of_
 
 Definition check_case (c : case) : N :=
   match c with
-  | CSign mn dt chain kind odig ov or_ os kaddr cls out iv ir is_ pl hash msg_same same2 unmod finsame r =>
+  | CSign mn dt chain kind key judge odig ov or_ os kaddr cls out iv ir is_ pl hash msg_same same2 unmod finsame r =>
     let m := mode_of_N mn in
     let t := expand_tx dt in
     let fm := format_of m t in
     let f := norm t in
     let cN := Z.to_N chain in
     let pre := spec_preimage fm f cN in
-    let dig := keccak256 pre in
     let mpl := sp_data (payload_of m t chain) in
-    (* the model's signer: the library's answer for the digest it was computed for *)
-    let orc : signer := fun msg =>
-      if bytes_eqb (keccak256 msg) (bexpand odig) then Ok (ov, or_, os) else Err 98%nat in
+    (* the model's signer: the library's answer (oracle row) for the message whose digest it was
+       computed for — [odig] is checked against the Keccak-256 of that message before it is used *)
+    let orc (asked : bytes) : signer := fun msg =>
+      if bytes_eqb msg asked then Ok (ov, or_, os) else Err 98%nat in
     match kind with
     | SKeyPair =>
+      let dig := keccak256 pre in
       (* ---- property oracles on the implementation ---- *)
       if negb (out_matches pl pre) || negb msg_same then 11
       else if negb (bytes_eqb (bexpand hash) dig) then 12
       else if negb (cls =? 0)%nat then 20
       else if negb (Zin 27 28 iv) then 14
-      else if negb (Zin 1 (secp_n - 1) ir && Zin 1 (secp_n / 2) is_) then 14
+      else if negb (Zin 1 (grp_n - 1) ir && Zin 1 (grp_n / 2) is_) then 14
       else if negb (out_matches out (spec_signed fm f cN (y_of_Z iv) (Z.to_N ir) (Z.to_N is_))) then 10
-      else if negb (bytes_eqb (bexpand odig) dig && (iv =? ov)%Z && (ir =? or_)%Z && (is_ =? os)%Z) then 13
+      else if negb (bytes_eqb (bexpand odig) dig) then 9        (* x/crypto and Gallina Keccak disagree *)
+      else if negb (if judge || negb ((iv =? ov)%Z && (ir =? or_)%Z && (is_ =? os)%Z)
+                    then exec_valid (bexpand kaddr) dig iv ir is_ else true) then 13
       else if negb same2 then 15
       else if negb unmod then 16
       else if negb finsame then 21
@@ -107,8 +134,24 @@ Definition check_case (c : case) : N :=
       else if negb (out_matches (rc_payload r) pre) then 19
       (* ---- the model against the implementation ---- *)
       else if negb (out_matches pl mpl) then 2
-      else match sign_call m t (Some orc) chain with
-           | (Ok mo, t') => if out_matches out mo then 0 else 1
+      else match sign_call m t (Some (orc pre)) chain with
+           | (Ok mo, t') =>
+             if negb (out_matches out mo) then 1 else
+             (* the model of RecoverRawTransaction (Tx/RecoverModel.v) on the signed bytes: the hash is
+                Keccak-256 (the digest of the preimage computed above is reused), RecoverDirect is the
+                observed answer for exactly the expected (V, R, S, digest) *)
+             let Hc : bytes -> bytes := fun msg => if bytes_eqb msg pre then dig else keccak256 msg in
+             let vs := match fm with Eip1559 => (iv - 27)%Z | _ => iv end in
+             let RD : sigdata -> bytes -> Z -> res bytes := fun sg z _ =>
+               let '(v', r', s') := sg in
+               if (v' =? vs)%Z && (r' =? ir)%Z && (s' =? is_)%Z && bytes_eqb z dig
+               then Ok (bexpand (rc_addr r)) else Err 96%nat in
+             match RecoverRawTransaction Hc RD mo chain with
+             | Ok (a, rt, p) =>
+                 if bytes_eqb a (bexpand (rc_addr r)) && tx_eqb rt (expand_tx (rc_tx r)) && out_matches (rc_payload r) p
+                 then 0 else 4
+             | _ => 4
+             end
            | _ => 3
            end
     | SNil =>
@@ -125,11 +168,12 @@ Definition check_case (c : case) : N :=
       if (cls =? 2)%nat then 20 else
       if negb unmod then 16 else
       if negb (out_matches pl mpl) then 2 else
-      match sign_mode m t (Some orc) chain with
+      match sign_mode m t (Some (orc mpl)) chain with
       | Ok mo => if (cls =? 0)%nat && out_matches out mo then 0 else 1
       | _ => 3
       end
     end
+  | CKey key kaddr => if bytes_eqb (exec_address (exec_pub key)) (bexpand kaddr) then 0 else 9
   end.
 
 Fixpoint mismatches_go (i : N) (l : list case) : list (N * N) :=
